@@ -30,9 +30,9 @@ type CfgCase struct {
 }
 
 var (
-	c19Once sync.Once
-	c19Dir  string
-	c19Seq  atomic.Int64
+	c19Once  sync.Once
+	c19Dir   string
+	c19Seq   atomic.Int64
 	c19Opens atomic.Int64
 	c19Watch atomic.Int64
 )
@@ -65,15 +65,15 @@ func Cleanup() {
 
 // token kinds
 var (
-	tokIPv4 = []string{"10.0.0.1", "192.168.1.1", "0.0.0.0", "255.255.255.255", "255.255.255.0", "255.0.255.0", "8.8.8.8", "224.0.0.1", "1.2.3", "256.1.1.1", "010.1.1.1"}
-	tokIPv6 = []string{"2001:db8::1", "::", "::1", "fe80::1", "ff02::1:2", "::ffff:10.0.0.1", "2001:db8::10.0.0.1", "2001:db8:::1", "fe80::1%eth0", "[2001:db8::1]"}
-	tokCIDR = []string{"10.0.0.0/8", "10.20.20.0/24", "0.0.0.0/0", "10.0.0.1/32", "10.0.0.5/24", "2001:db8::/32", "2001:db8::/48", "::/0", "2001:db8::/64", "2001:db8::/127", "::ffff:10.0.0.0/104", "10.0.0.0/33", "10.0.0.0", "2001:db8::/129", "2001:db8:1::/56"}
-	tokDur  = []string{"3600s", "1h", "60s", "0s", "1ns", "1500ms", "-5s", "-1h", "1000000h", "2540400h", "5", "1d", "abc", "", "1h30m15.5s", "4294967296s"}
-	tokInt  = []string{"0", "1", "64", "56", "128", "129", "1500", "65535", "65536", "-1", "4294967296", "99999999999999999999", "0x10", "1e3", "abc", "", "32", "48", "120"}
-	tokURL  = []string{"http://10.0.0.1/nbp", "https://h.example/x?params=a%20b", "ftp://10.0.0.1/f", "tftp://10.0.0.1/boot.img", "http://[2001:db8::1]/nbp", "http://[2001:db8::1", "://bad", "http://h/%zz", "tftp://h/" + strings.Repeat("p", 300), "", "mailto:someone", "http://h/x?params=" + strings.Repeat("q", 70000), "//host/path", "/path", "tftp://" + strings.Repeat("h", 300) + "/f", "http://h/x?params=%00%ff"}
+	tokIPv4     = []string{"10.0.0.1", "192.168.1.1", "0.0.0.0", "255.255.255.255", "255.255.255.0", "255.0.255.0", "8.8.8.8", "224.0.0.1", "1.2.3", "256.1.1.1", "010.1.1.1"}
+	tokIPv6     = []string{"2001:db8::1", "::", "::1", "fe80::1", "ff02::1:2", "::ffff:10.0.0.1", "2001:db8::10.0.0.1", "2001:db8:::1", "fe80::1%eth0", "[2001:db8::1]"}
+	tokCIDR     = []string{"10.0.0.0/8", "10.20.20.0/24", "0.0.0.0/0", "10.0.0.1/32", "10.0.0.5/24", "2001:db8::/32", "2001:db8::/48", "::/0", "2001:db8::/64", "2001:db8::/127", "::ffff:10.0.0.0/104", "10.0.0.0/33", "10.0.0.0", "2001:db8::/129", "2001:db8:1::/56"}
+	tokDur      = []string{"3600s", "1h", "60s", "0s", "1ns", "1500ms", "-5s", "-1h", "1000000h", "2540400h", "5", "1d", "abc", "", "1h30m15.5s", "4294967296s"}
+	tokInt      = []string{"0", "1", "64", "56", "128", "129", "1500", "65535", "65536", "-1", "4294967296", "99999999999999999999", "0x10", "1e3", "abc", "", "32", "48", "120"}
+	tokURL      = []string{"http://10.0.0.1/nbp", "https://h.example/x?params=a%20b", "ftp://10.0.0.1/f", "tftp://10.0.0.1/boot.img", "http://[2001:db8::1]/nbp", "http://[2001:db8::1", "://bad", "http://h/%zz", "tftp://h/" + strings.Repeat("p", 300), "", "mailto:someone", "http://h/x?params=" + strings.Repeat("q", 70000), "//host/path", "/path", "tftp://" + strings.Repeat("h", 300) + "/f", "http://h/x?params=%00%ff", "http://h/" + strings.Repeat("^", 30000), "tftp://h/" + strings.Repeat("\xc3\xa9", 20000), "http://h/" + strings.Repeat("a", 65500)}
 	tokDUIDType = []string{"LL", "ll", "duid-ll", "LLT", "duid_llt", "EN", "uuid", "opaque", "", "llx"}
-	tokMAC  = []string{"00:de:ad:be:ef:00", "00-de-ad-be-ef-00", "00de.adbe.ef00", "00:de:ad:be:ef:00:11:22", "00:00:00:00:fe:80:00:00:00:00:00:00:02:00:5e:10:00:00:00:01", "00:de:ad:be:ef", "zz:zz:zz:zz:zz:zz", "", "00:de:ad:be:ef:00:11"}
-	tokWord = []string{"autorefresh", "AutoConfigure", "DoNotAutoConfigure", "0", "1", "2", "true", "x", ""}
+	tokMAC      = []string{"00:de:ad:be:ef:00", "00-de-ad-be-ef-00", "00de.adbe.ef00", "00:de:ad:be:ef:00:11:22", "00:00:00:00:fe:80:00:00:00:00:00:00:02:00:5e:10:00:00:00:01", "00:de:ad:be:ef", "zz:zz:zz:zz:zz:zz", "", "00:de:ad:be:ef:00:11"}
+	tokWord     = []string{"autorefresh", "AutoConfigure", "DoNotAutoConfigure", "0", "1", "2", "true", "x", ""}
 )
 
 func labelOf(n int) string { return strings.Repeat("a", n) }
@@ -276,7 +276,7 @@ func battery6() [][]byte {
 	sid := gen.Opt6(gen.O6ServerID, gen.DUIDLL(1, []byte{0, 0xde, 0xad, 0xbe, 0xef, 0}))
 	for _, mt := range []uint8{gen.M6Solicit, gen.M6Request, gen.M6InfoRequest} {
 		for _, oro := range [][]uint16{nil, {23, 24, 59, 60}, {31}} {
-			for _, ia := range []int{0, 1, 2} {
+			for _, ia := range []int{0, 1, 2, 3} {
 				for _, relay := range []int{0, 1} {
 					opts := [][]byte{cid, gen.Opt6(gen.O6ElapsedTime, []byte{0, 0})}
 					if mt == gen.M6Request {
@@ -290,6 +290,12 @@ func battery6() [][]byte {
 					}
 					if ia == 2 {
 						opts = append(opts, gen.IAPD6([4]byte{0, 0, 0, 8}, 0, 0), gen.IAPD6([4]byte{0, 0, 0, 9}, 0, 0, gen.IAPrefix6(0, 0, 0, nil)))
+					}
+					if ia == 3 {
+						// hints a pool of any accepted shape may have to look at: inside documentation space, v4-mapped, all-ones
+						opts = append(opts, gen.IAPD6([4]byte{0, 0, 0, 10}, 0, 0,
+							gen.IAPrefix6(0, 0, 64, net.ParseIP("2001:db8::")), gen.IAPrefix6(0, 0, 120, net.ParseIP("::ffff:10.1.0.0")),
+							gen.IAPrefix6(0, 0, 128, net.ParseIP("ffff:ffff:ffff:ffff:ffff:ffff:ffff:ffff")), gen.IAPrefix6(0, 0, 56, net.ParseIP("::"))))
 					}
 					w := gen.Msg6(mt, 0x600d01, opts...)
 					if relay == 1 {
